@@ -371,6 +371,10 @@ theorem flushAndCache_pending (m : Manager) (l : TxList) : (m.flushAndCache l).p
 theorem MInv_init (gOf : Id → Bool) : MInv gOf {} := by
   refine ⟨?_, ?_, ?_, ?_, ?_, ?_, ?_⟩ <;> intro g <;> cases g <;> simp [seqQ, pendQ, Manager.cache]
 
+/-- a manager freshly constructed over any database content (node start / restart) -/
+theorem MInv_fresh (gOf : Id → Bool) (d : List Id) : MInv gOf { db := d } := by
+  refine ⟨?_, ?_, ?_, ?_, ?_, ?_, ?_⟩ <;> intro g <;> cases g <;> simp [seqQ, pendQ, Manager.cache]
+
 theorem MInv_commitTracker {gOf : Id → Bool} {m : Manager} (h : MInv gOf m)
     (g : Bool) (ts th : Int) (ids : List Id) (htyped : ∀ k ∈ ids, gOf k = g) (hts0 : ts = 0 → ids = []) :
     MInv gOf (m.commitTracker ⟨g, ts, th, ids, ids⟩) := by
@@ -756,6 +760,9 @@ theorem SInv_commitF {gOf : Id → Bool} : ∀ (fuel : Nat) (s : State) (i : Nat
       cases hpar : t0.parent with
       | none => exact SInv_commit_tail h t0 hti0 i
       | some p => exact SInv_commit_tail (SInv_commitF fuel s p h) t0 hti0 i
+
+theorem SInv_restart (gOf : Id → Bool) (s : State) : SInv gOf s.restart := by
+  refine ⟨⟨?_, ?_⟩, ?_, MInv_fresh gOf s.mgr.db⟩ <;> intros <;> simp_all [State.restart]
 
 theorem SInv_init (gOf : Id → Bool) : SInv gOf State.init := by
   refine ⟨⟨?_, ?_⟩, ?_, MInv_init gOf⟩ <;> intros <;> simp_all [State.init]
